@@ -63,6 +63,15 @@ pub fn check(tier: Tier) -> Check {
             tier.pick(15, 300),
         ));
     }
+    // the new connection announces a Receive Maximum smaller than the number of unfinished handshakes
+    for r2 in [1u64, 2] {
+        parts.push(Part::new(
+            "C17/resume",
+            json!({"depth": tier.pick(5, 6), "expiry": 1000, "secs_ago": 10, "r2": r2}),
+            0,
+            tier.pick(15, 300),
+        ));
+    }
     // identifier flavour: the counters start next to a boundary of their encodings (DESIGN 4)
     for ids in [[65534u64, 1u64], [255, 127]] {
         parts.push(Part::new(
@@ -178,12 +187,19 @@ pub fn scenario_for(prop: &'static str, name: &str, params: &Value) -> Scenario 
             sys.w.cmd(CtxCmd::MarkDisconnected(secs_ago));
             sys.w.new_wire();
             sys.m.new_wire();
+            // (params.r2: the new connection's CONNACK announces a small Receive Maximum - the unfinished
+            // handshakes are all re-sent nevertheless: they were begun under the old connection's terms)
+            let mut cprops2 = cprops.clone();
+            if let Some(r2) = params["r2"].as_u64() {
+                cprops2.retain(|p| p.id != P_RECEIVE_MAXIMUM);
+                cprops2.push(Prop::u16(P_RECEIVE_MAXIMUM, r2 as u16));
+            }
             sys.connect_with(
                 spec.clone(),
                 SPacket::Connack {
                     session_present: !expired,
                     reason: 0,
-                    props: cprops.clone(),
+                    props: cprops2,
                 },
             );
             if !sys.dead {
@@ -209,9 +225,11 @@ pub fn scenario_for(prop: &'static str, name: &str, params: &Value) -> Scenario 
                 let i = chz.choose(e.len());
                 sys.apply(e[i].clone());
             }
-            // new traffic works
+            // new traffic works (with a small Receive Maximum on the new connection the quota after a
+            // resume is outside C10 and C17: a QoS 0 publish then)
             if !sys.dead {
-                sys.apply(Ev::Start(OpSpec::Publish(PublishSpec::simple(1, "t/new", b"new"))));
+                let q = if params["r2"].as_u64().is_some() { 0 } else { 1 };
+                sys.apply(Ev::Start(OpSpec::Publish(PublishSpec::simple(q, "t/new", b"new"))));
             }
             // after an expired session nothing of the old one is left: a new ping is answered by the
             // first PINGRESP of the new connection, a new subscribe by its SUBACK
